@@ -68,6 +68,7 @@ struct RankLog
 {
     std::vector<PointRec> recs;
     std::vector<std::size_t> cuts;
+    std::size_t limit = ~std::size_t(0); // no rank may evaluate more points than the whole run requests
 };
 
 struct LogFn
@@ -82,6 +83,7 @@ struct LogFn
     template <typename P>
     void record(P const& p) const
     {
+        if (log->recs.size() >= log->limit) { throw std::runtime_error("a rank evaluates more points than all iterations together request (it would never return)"); }
         PointRec r;
         r.point = p.point();
         extra(p, r);
@@ -271,6 +273,12 @@ void run_case(vf::Ctx& c, vf::RunCfg<T> const& cfg, std::vector<std::size_t> con
     int const P = sch.P;
     Chk const start = R::fresh(cfg);
     std::vector<RankLog> logs(P);
+    {
+        std::size_t total = 0;
+        for (auto x : calls) { total += x; }
+        for (auto& l : logs) { l.limit = total + 1; }
+        vf::discard_limit::value() = 64ull * (total + 16) * (cfg.dims + 2) * 16;
+    }
     std::vector<std::unique_ptr<Chk>> outs(P);
     shim::World world(P);
     for (std::size_t r = 0; r != 64; ++r)
@@ -417,12 +425,15 @@ void run(vf::Ctx& c)
     std::size_t const engine = t.pick(5);
     c.desc << vf::type_name<T>::get() << " P=" << sch.P << " calls=" << vf::show(calls) << " mode=" << mode << " target=" << vf::show(target) << " schedule=" << sch.seed % 100000
            << (sch.tree ? " tree-reduction" : " linear-reduction") << " engine#" << engine << ' ' << cfg.describe();
-#define VF_DISPATCH(E)                                                                                           \
-    switch (cfg.kind)                                                                                            \
+#define VF_DISPATCH(EE)                                                                                          \
     {                                                                                                            \
-    case vf::PLAIN: run_case<E, vf::PLAIN>(c, cfg, calls, sch, mode, target); break;                            \
-    case vf::VEGAS: run_case<E, vf::VEGAS>(c, cfg, calls, sch, mode, target); break;                            \
-    default: run_case<E, vf::MULTI>(c, cfg, calls, sch, mode, target); break;                                   \
+        using GE = vf::guard_engine<EE>;                                                                         \
+        switch (cfg.kind)                                                                                        \
+        {                                                                                                        \
+        case vf::PLAIN: run_case<GE, vf::PLAIN>(c, cfg, calls, sch, mode, target); break;                       \
+        case vf::VEGAS: run_case<GE, vf::VEGAS>(c, cfg, calls, sch, mode, target); break;                       \
+        default: run_case<GE, vf::MULTI>(c, cfg, calls, sch, mode, target); break;                              \
+        }                                                                                                        \
     }
     using RE = vf::range_engine<0, (1u << 14) - 1>;
     using IB = std::independent_bits_engine<std::mt19937, 7, unsigned>;
